@@ -781,6 +781,7 @@ def _den_sub(a, b):
         a = a.toreal()
         if a.k != "real":
             return None
+        engine.defined(b.p > 0, "neg of -inf")      # x - shift is NaN/+inf if the shift is -inf: proved, never assumed
         if a.p is not None and a.p.eq(b.p) and a.d is None:
             return SV("real", a.l)
         return SV("real", a.l, ONE if a.p is None else a.p, _den_merge(a.d, ((str(b.p), b.p, 1),)))
@@ -1059,8 +1060,12 @@ class FInfoConst:
 def finfo_clip_lo(x, lo):
     """max(x, finfo.min)"""
     x = SV.lift(x).toreal()
-    if x.k == "real" and (x.d is not None or _is_shift(x.p)):
-        return x        # an abstract (positive, otherwise arbitrary) shift stays abstract
+    if x.k == "real" and x.d is None and _is_shift(x.p):
+        # clamping a let-bound shift: bind the exact clamped value to a new symbol (known to be positive)
+        eps = lo.as_sv().p
+        m2 = shift_symbol(engine.fresh_name("shift"))
+        engine.axiom("shift|%s" % m2, z3.And(m2 == z3.If(x.p >= eps, x.p, eps), m2 > 0))
+        return SV("real", x.l, m2)
     if x.k == "pinf" or x.p is None:
         return x          # finite reals are >= finfo.min
     return sv_max(x, lo.as_sv())
